@@ -63,6 +63,18 @@ def mutants(lines, lo, hi):
         if m:
             v = m.group(2) or m.group(3)
             out.append((ln + 1, "inc->+=1", "%s%s += 1;%s" % (m.group(1), v, m.group(4))))
+    # swap two adjacent independent plain stores
+    st_re = re.compile(r"^(\s+)([A-Za-z_\*][\w\->\.\[\]\*]*) = ([^;()]+);\s*$")
+    for ln in range(lo - 1, min(hi, len(lines)) - 1):
+        a, b = st_re.match(lines[ln]), st_re.match(lines[ln + 1])
+        if not a or not b or a.group(1) != b.group(1):
+            continue
+        la, ra, lb, rb = a.group(2), a.group(3), b.group(2), b.group(3)
+        if la == lb or re.search(r"\b%s\b" % re.escape(la.lstrip("*")), rb) or re.search(r"\b%s\b" % re.escape(lb.lstrip("*")), ra):
+            continue
+        if la.startswith("*") or lb.startswith("*") or "[" in la + lb:
+            continue   # possible aliasing
+        out.append((ln + 1, "swap-with-next", ("SWAP", lines[ln + 1], lines[ln])))
     return out
 
 
@@ -86,7 +98,11 @@ def _run(job):
     orig = open(path, "rb").read()
     lines = orig.decode().splitlines(keepends=True)
     old = lines[ln - 1]
-    lines[ln - 1] = newline if newline.endswith("\n") else newline + ("\r\n" if old.endswith("\r\n") else "\n")
+    if isinstance(newline, tuple) and newline[0] == "SWAP":
+        lines[ln - 1], lines[ln] = newline[1], newline[2]
+        newline = newline[1].strip() + " <-> " + newline[2].strip()
+    else:
+        lines[ln - 1] = newline if newline.endswith("\n") else newline + ("\r\n" if old.endswith("\r\n") else "\n")
     open(path, "wb").write("".join(lines).encode())
     verdict = "SURVIVED"
     by = []
